@@ -293,7 +293,7 @@ impl Prop for C11Prop {
         "C11"
     }
     fn rule(&self) -> String {
-        "Cases are (evaluator, aggregate, argument list). Exhaustive: every ordered argument tuple (hence every permutation of every multiset) of length 1..4 (thorough: 1..5) over the pool {-7,-2,-1,0,1,2,3,5,12 (+0.5, 2.5 outside i64)} for min max avg med median (f64, i64, decimal, number) and gcd lcm (i64); random lists of length 1..8 over dyadic rationals k/1024 (f64, number: every partial sum exact), scale-4 decimals, and the wide i64 pool, with arguments spelled as literals, bracketed, prefixed, as sums and as nested aggregates (number: Integer and Float spellings mixed); random lists of 9..130 small values in scrambled order; min/max/odd-count median/one-element mean of every finite pool placeholder (incl. f64::MAX, i64::MIN, Decimal::MAX) must be that placeholder; every position of a failing argument (w(-5), 1/0); empty lists; exhaustive pairs/triples of values between 2^53 and 2^64 in Integer and (where exactly representable) Float spellings for min, max and odd-count med in eval_number and eval_i64, compared exactly. Oracle: computed from the multiset of argument values: min/max exact; mean = exact sum / n (f64/number: the correctly rounded double, decimal: exact when representable else within 1e-27, i64: truncated toward zero, Err acceptable iff a partial sum leaves i64); median = middle value or mean of the two middle values; gcd >= 0 (gcd(0,0)=0), lcm = |a*b|/gcd with lcm(0,x)=0, Err iff the result leaves i64. non-trivial = length >= 2 and not all arguments equal; distinct by (evaluator, function, list).".into()
+        "Cases are (evaluator, aggregate, argument list). Exhaustive: every ordered argument tuple (hence every permutation of every multiset) of length 1..4 (thorough: 1..5) over the pool {-7,-2,-1,0,1,2,3,5,12 (+0.5, 2.5 outside i64)} for min max avg med median (f64, i64, decimal, number) and gcd lcm (i64); random lists of length 1..8 over dyadic rationals k/1024 (f64, number: every partial sum exact), scale-4 decimals, and the wide i64 pool, with arguments spelled as literals, bracketed, prefixed, as sums and as nested aggregates (number: Integer and Float spellings mixed); random lists of 9..130 small values in scrambled order; min/max/odd-count median/one-element mean of every finite pool placeholder (incl. f64::MAX, i64::MIN, Decimal::MAX) must be that placeholder; every position of a failing argument (w(-5), 1/0); empty lists; exhaustive pairs/triples of values between 2^53 and 2^64 in Integer and (where exactly representable) Float spellings for min, max and odd-count med in eval_number and eval_i64, compared exactly. Oracle: computed from the multiset of argument values: min/max exact; mean = exact sum / n (f64/number: the correctly rounded double, decimal: exact when representable else within 1e-27, i64: truncated toward zero, Err acceptable iff a partial sum leaves i64); median = middle value or mean of the two middle values; gcd >= 0 (gcd(0,0)=0), lcm = |a*b|/gcd with lcm(0,x)=0, Err iff the result leaves i64. nested: an aggregate (min/max/odd median) as one or two of the arguments of any aggregate, in any position, expected = the flat list with the inner value; after every failing-argument case the same aggregate is evaluated on a healthy list on the same thread. non-trivial = length >= 2 and not all arguments equal; distinct by (evaluator, function, list).".into()
     }
     fn subs(&self, tier: Tier) -> Vec<Sub> {
         let l = tier.pick(4, 5) as u32;
@@ -305,6 +305,7 @@ impl Prop for C11Prop {
             Sub { name: "large", kind: SubKind::Enum { count: large_cases().len() as u64 } },
             Sub { name: "long-lists", kind: SubKind::Random { cases: tier.pick(60_000, 3_000_000), len: 300 } },
             Sub { name: "placeholder", kind: SubKind::Enum { count: placeholder_cases().len() as u64 } },
+            Sub { name: "nested", kind: SubKind::Random { cases: tier.pick(150_000, 5_000_000), len: 80 } },
         ]
     }
     fn gen_enum(&self, sub: &str, mut idx: u64, tier: Tier) -> Option<Case> {
@@ -360,6 +361,34 @@ impl Prop for C11Prop {
             let ks: Vec<i64> = (0..n).map(|_| (c.below(199) as i64 - 99) * d).collect();
             let args: Vec<String> = ks.iter().map(|k| if *k < 0 { format!("-{}", -k / d) } else { format!("{}", k / d) }).collect();
             let mut case = Case::new(ev, format!("{}({})", f, args.join(",")), Val::default_for(ev));
+            case.aux = vec![f.to_string(), ks.iter().map(|k| k.to_string()).collect::<Vec<_>>().join(" ")];
+            return Some(case);
+        }
+        if sub == "nested" {
+            // an aggregate among the arguments of an aggregate, in any position, possibly twice (scratch buffers and
+            // accumulators shared between the calls): the inner call is a min/max/odd median, so its value is one of its
+            // arguments and the outer expectation is that of the flat list with the inner value in that position
+            let d = denom(ev);
+            let n = 2 + c.below(5) as usize;
+            let mut ks: Vec<i64> = (0..n).map(|_| (c.below(41) as i64 - 20) * d + if ev == Ev::I64 { 0 } else { c.below(d as u32) as i64 * (c.below(2) as i64) }).collect();
+            let mut texts: Vec<String> = ks.iter().enumerate().map(|(i, k)| arg_text(ev, *k, i as u32 % 3)).collect();
+            let inner_count = 1 + c.below(2) as usize;
+            for _ in 0..inner_count {
+                let pos = c.below(n as u32) as usize;
+                let g = ["min", "max", "med", "median"][c.below(4) as usize];
+                let m = [1usize, 3, 5, 2, 4][c.below(if g.starts_with("med") { 3 } else { 5 }) as usize];
+                let ks2: Vec<i64> = (0..m).map(|_| (c.below(41) as i64 - 20) * d).collect();
+                let mut sorted = ks2.clone();
+                sorted.sort();
+                let v = match g {
+                    "min" => sorted[0],
+                    "max" => sorted[m - 1],
+                    _ => sorted[m / 2],
+                };
+                ks[pos] = v;
+                texts[pos] = format!("{}({})", g, ks2.iter().enumerate().map(|(i, k)| arg_text(ev, *k, i as u32 % 3)).collect::<Vec<_>>().join(","));
+            }
+            let mut case = Case::new(ev, format!("{}({})", f, texts.join(",")), Val::default_for(ev));
             case.aux = vec![f.to_string(), ks.iter().map(|k| k.to_string()).collect::<Vec<_>>().join(" ")];
             return Some(case);
         }
@@ -471,6 +500,22 @@ impl Prop for C11Prop {
                 }
                 sc.class("failing argument");
                 sc.nontrivial(case.hash(), || sample(case, &o.show()));
+                // the next call of the same aggregate on this thread starts from a clean slate
+                let d = denom(ev);
+                let ks = [30 * d, 10 * d, 20 * d];
+                let next = format!("{}(30,10,20)", f);
+                if let Some(o2) = eval_normal(sc, ev, &next, &case.ph) {
+                    let ok = match expected(ev, &f, &ks) {
+                        Want::Err => o2.is_err(),
+                        Want::Int(i64_or::Must(v)) => matches!(&o2, Outcome::Ok(Val::I(g)) if *g == v),
+                        Want::Int(i64_or::ValueOrErr(v)) => o2.is_err() || matches!(&o2, Outcome::Ok(Val::I(g)) if *g == v),
+                        Want::Ratio(n, dd) => matches_ratio(ev, n, dd, &o2),
+                        Want::Skip => true,
+                    };
+                    if !ok {
+                        return Err(Failure::new(format!("{}/aggregate-after-failure/{}", ev.name(), canon), format!("the {} of 30, 10, 20", canon), format!("{} right after {:?} returned Err", o2.show(), case.input)));
+                    }
+                }
                 return Ok(());
             }
             _ => {}
